@@ -30,7 +30,10 @@ def run(ctx):
     ctx.rule("C01.5", "recursive/forwarding resolvers return the local result as soon as it is Done: no upstream call reachable from that edge")
     ctx.rule("C01.6", "AuthoritativeNameError is built only from an authoritative zone's NameError; the NXDOMAIN rcode only from AuthoritativeNameError")
     ctx.rule("C01.7", "Authoritative results are built only in local.rs from the zone's own SOA; recursive/forwarding build only NonAuthoritative; AA set only in the authoritative arms")
+    ctx.rule("C01.8", "names the zone owns are never answered with a referral built from the apex node's own NS records (shared with C02.5)")
     ctx.decline("equality of the answer with an oracle for every zone set x cache x upstream")
+    from . import C02
+    C02.apex_rules(ctx, "C01.8")
 
     f = prog.fn(LOCAL)
     r = A.Resolver(f)
